@@ -139,3 +139,16 @@ func init() {
 		o.def("batchDimPrecheckPerItem", "Bool", lbool(batchOK), "batch insert/update pre-check the dimension per item, forward only the valid items and merge the partitions' error maps")
 	})
 }
+
+// C11: a notification id must identify its waiter among all replicas of the group, because every
+// replica signals the id carried by every applied entry.
+func init() {
+	extractors = append(extractors, func(o *out) {
+		f := parseFile("utils/notificator.go")
+		ok := false
+		if fd := funcDecl(f, "Notificator", "Create"); fd != nil {
+			ok = strings.HasPrefix(norm(fd.Body), "{id:=uuid.NewV4()c:=make(chaninterface{},bufSize)this.mu.Lock()this.chans[id]=c")
+		}
+		o.def("notifIdsRandomUuid", "Bool", lbool(ok), "Notificator.Create draws the notification id with uuid.NewV4 (unique across processes, not a per-process counter)")
+	})
+}
